@@ -162,12 +162,13 @@ class SStr(Sym):
     of it gives that integer back without any string reasoning.
     """
 
-    __slots__ = ("t", "is_bytes", "origin_int")
+    __slots__ = ("t", "is_bytes", "origin_int", "origin_real")
 
     def __init__(self, t, is_bytes=False, origin_int=None):
         self.t = t
         self.is_bytes = is_bytes
         self.origin_int = origin_int
+        self.origin_real = None
 
     def __eq__(self, o):  # noqa: D105
         if isinstance(o, (SStr, str, bytes)):
